@@ -34,3 +34,7 @@ package selector
 //@ func (Selector).Select
 //@   trusted
 //@   allocates
+//
+//@ func (Selector).Remove
+//@   trusted
+//@   allocates
